@@ -17,7 +17,8 @@
   decidable hypotheses (`levelOK` at every level) exclude exactly the remaining region (`Sync` fails
   at a nested level).
 -/
-import TypedpyModel.Lemmas.Mappers
+import TypedpyModel.Lemmas.MappersRegion
+import TypedpyModel.Lemmas.MappersCache
 namespace Typedpy.C07
 open Typedpy.Mappers
 
@@ -97,6 +98,49 @@ theorem history_transparent_from_empty (S : StrFns) (env : String → Cls) (dec 
     runHistory S env dec [] calls =
       calls.map (fun k => aggregate S true (env k.1).own (env k.1).fields (dec k.2.1) k.2.2) :=
   history_transparent S env dec calls [] (fun _ h => by cases h)
+
+/-! ### the cache with the nested-class entries threaded explicitly -/
+
+/-- **One call, nested entries included.**  `cAggregate` mirrors `aggregate_serialization_mappers` as it
+    runs: the base mapper asks the cache for every nested class (at any depth), computes and files
+    what is missing.  If every entry of the cache is the aggregate its key names (`CacheOK`) and the
+    ids of the nested classes name those classes (`envFs`), the mapper handed out is the freshly
+    computed aggregate and the cache — with all the new nested entries — is coherent again. -/
+theorem cache_transparent_nested (S : StrFns) (env : String → Cls) (dec : String → Option MDict)
+    (hdec : dec "" = none) (cache : Cache) (h : CacheOK S env dec cache) (me ovKey : String) (camel : Bool)
+    (he : envFs env (env me).fields) :
+    (cAggregate S cache me ovKey (env me).own (env me).fields (dec ovKey) camel).1
+        = aggregate S true (env me).own (env me).fields (dec ovKey) camel
+    ∧ CacheOK S env dec
+        (cAggregate S cache me ovKey (env me).own (env me).fields (dec ovKey) camel).2 :=
+  c07_cAggregate_ok S env dec hdec cache h me ovKey camel he
+
+/-- the mappers handed out along a history of calls, nested entries threaded -/
+def runHistoryN (S : StrFns) (env : String → Cls) (dec : String → Option MDict) :
+    Cache → List CacheKey → List MDict
+  | _, [] => []
+  | cache, (me, ovKey, camel) :: rest =>
+    (cAggregate S cache me ovKey (env me).own (env me).fields (dec ovKey) camel).1 ::
+      runHistoryN S env dec
+        (cAggregate S cache me ovKey (env me).own (env me).fields (dec ovKey) camel).2 rest
+
+/-- **Any history, nested entries included**: whatever was serialized before (outer classes, nested
+    classes on their own, any flags), every call resolves exactly the mapper of its own class,
+    override and `camel_case_convert`. -/
+theorem history_transparent_nested (S : StrFns) (env : String → Cls) (dec : String → Option MDict)
+    (hdec : dec "" = none) :
+    ∀ (calls : List CacheKey) (cache : Cache), CacheOK S env dec cache →
+      (∀ k ∈ calls, envFs env (env k.1).fields) →
+      runHistoryN S env dec cache calls =
+        calls.map (fun k => aggregate S true (env k.1).own (env k.1).fields (dec k.2.1) k.2.2)
+  | [], _, _, _ => rfl
+  | (me, ovKey, camel) :: rest, cache, h, he => by
+    have ht := cache_transparent_nested S env dec hdec cache h me ovKey camel
+      (he (me, ovKey, camel) (List.mem_cons_self ..))
+    simp only [runHistoryN, List.map_cons]
+    rw [ht.1, history_transparent_nested S env dec hdec rest _ ht.2
+      (fun k hk => he k (List.mem_cons_of_mem _ hk))]
+
 
 /-! ### key-set law -/
 
@@ -199,42 +243,53 @@ theorem nested_step (S : StrFns) (camel : Bool) (m : MDict) (n : String) (opt : 
       have := many_step S camel m g P hg xs h
       simp [dNested, J.isNull, ser, this]
 
+theorem construct_noExtras (ca : Bool) (ex r : List (String × J)) (h : ex.isEmpty = true) :
+    construct ca ex r = .ok (.obj r) := by
+  simp [construct, h]
+
+@[simp] theorem kuNext_false (camel : Bool) (d : List Mapper) : kuNext false camel d = false := by
+  simp [kuNext]
+
+@[simp] theorem exFree_false (S : StrFns) (camel co : Bool) (names : List String) (ms : MDict)
+    (kvs : List (String × J)) : exFree S camel false co names ms kvs = true := by
+  simp [exFree, extrasOf]
+
 mutual
 /-- the deserializer, walking any suffix `fs` of the class's fields over the serialization of the whole
     level `all`, rebuilds the corresponding suffix `sub` of the instance -/
 theorem rt_fields (S : StrFns) (camel : Bool) :
-    ∀ (fs : List Fld) (ms M : MDict) (strict : Bool) (all sub : List (String × J)),
+    ∀ (fs : List Fld) (ku : Bool) (ms M : MDict) (strict : Bool) (all sub : List (String × J)),
       levelOK S ms M strict all = true → (∀ p ∈ sub, p ∈ all) →
-      rtFields S camel (levelOK S) ms M fs sub = true →
-      deserFields S camel M strict (serFields S camel ms all) fs = .ok sub
-  | [], ms, M, strict, all, sub, _, _, h => by
+      rtFields S camel ku (levelOK S) ms M fs sub = true →
+      deserFields S camel ku M strict (serFields S camel ms all) fs = .ok sub
+  | [], ku, ms, M, strict, all, sub, _, _, h => by
     cases sub with
     | nil => simp [deserFields]
     | cons p r => simp [rtFields] at h
-  | f :: fs, ms, M, strict, all, sub, hl, hsub, h => by
+  | f :: fs, ku, ms, M, strict, all, sub, hl, hsub, h => by
     cases sub with
     | nil => simp [rtFields] at h
     | cons p rest =>
       simp only [rtFields, and_true_iff'] at h
-      have ih := rt_fields S camel fs ms M strict all rest hl
+      have ih := rt_fields S camel fs ku ms M strict all rest hl
         (fun q hq => hsub q (List.mem_cons_of_mem _ hq)) h.2
       simp only [deserFields]
       rw [ih]
-      exact rt_fld S camel f ms M strict all p rest hl (hsub p (List.mem_cons_self ..)) h.1
+      exact rt_fld S camel f ku ms M strict all p rest hl (hsub p (List.mem_cons_self ..)) h.1
 theorem rt_fld (S : StrFns) (camel : Bool) :
-    ∀ (f : Fld) (ms M : MDict) (strict : Bool) (all : List (String × J)) (p : String × J)
+    ∀ (f : Fld) (ku : Bool) (ms M : MDict) (strict : Bool) (all : List (String × J)) (p : String × J)
       (rest : List (String × J)),
       levelOK S ms M strict all = true → p ∈ all →
-      rtFld S camel (levelOK S) ms M f p = true →
-      deserFld S camel M strict (serFields S camel ms all) f (.ok rest) = .ok (p :: rest)
-  | .scalar n opt, ms, M, strict, all, (k, v), rest, hl, hm, h => by
+      rtFld S camel ku (levelOK S) ms M f p = true →
+      deserFld S camel ku M strict (serFields S camel ms all) f (.ok rest) = .ok (p :: rest)
+  | .scalar n opt, ku, ms, M, strict, all, (k, v), rest, hl, hm, h => by
     simp only [rtFld, and_true_iff', beq_iff_eq] at h
     obtain ⟨hk, hv⟩ := h
     subst hk
     simp only [deserFld]
     rw [procInput_ser S camel ms M strict all hl k v hm]
     exact scalar_step S camel _ k opt v rest hv
-  | .nested n opt shape own fs, ms, M, strict, all, (k, v), rest, hl, hm, h => by
+  | .nested n opt shape ci fs, ku, ms, M, strict, all, (k, v), rest, hl, hm, h => by
     simp only [rtFld, and_true_iff', beq_iff_eq] at h
     obtain ⟨hk, hv⟩ := h
     subst hk
@@ -245,34 +300,49 @@ theorem rt_fld (S : StrFns) (camel : Bool) :
     cases y with
     | obj kvs =>
       simp only [rtObj, and_true_iff'] at hy
-      have := rt_fields S camel fs (subSer ms k) (aggregate S false own fs (subDeser M k) camel) false
-        kvs kvs hy.1 (fun q hq => hq) hy.2
-      simp [ser, dObj, this]
+      have := rt_fields S camel fs (kuNext ku camel ci.desL) (subSer ms k)
+        (aggregate S false ci.desL fs (subDeser M k) camel) false
+        kvs kvs hy.1 (fun q hq => hq) hy.2.2
+      have hex := hy.2.1
+      simp only [exFree] at hex
+      simp [ser, dObjK, this, construct_noExtras _ _ _ hex]
     | null => simp [rtObj] at hy
     | int i => simp [rtObj] at hy
     | str s => simp [rtObj] at hy
     | arr xs => simp [rtObj] at hy
 end
 
-/-- **Round trip (partial statement).**  For every class tree, every resolved serializer mapper `ms`,
-    every override / flags (`use_strict_mapping` on or off), every instance of any nesting depth: if
-    at every level the hypotheses `levelOK` hold — `Sync` (both sides resolve each field to the same
-    string key, or both to `DoNotSerialize` and the field is absent), `NoDot`, populated keys
-    distinct, absent fields' keys not populated — deserializing the serialized document gives back
-    the instance.  No `NoFallbackCapture` hypothesis is needed any more. -/
-theorem mapper_round_trip (S : StrFns) (camel : Bool) (c : Cls) (ms : MDict) (ov : Option MDict)
-    (strict : Bool) (x : J) (h : rtCls S camel (levelOK S) c ms ov strict x = true) :
-    deser S camel c ov strict (ser S camel ms x) = .ok x := by
+/-- **Round trip (partial statement), any `keep_undefined`.**  For every class tree, every resolved
+    serializer mapper `ms`, every override / flags (`use_strict_mapping`, `keep_undefined` on or off,
+    classes with or without `_additional_properties = False`, own or inherited), every instance of any
+    nesting depth: if at every level the hypotheses `levelOK` hold — `Sync` (both sides resolve each
+    field to the same string key, or both to `DoNotSerialize` and the field is absent), `NoDot`,
+    populated keys distinct, absent fields' keys not populated — and no serialized key of a level is
+    kept as an undefined attribute (`exFree`: `keep_undefined` off at that level, or the class's own
+    `__dict__` forbids additional properties, or every key is a field name), deserializing the
+    serialized document gives back the instance. -/
+theorem mapper_round_trip_K (S : StrFns) (camel ku : Bool) (c : Cls) (ms : MDict) (ov : Option MDict)
+    (strict : Bool) (x : J) (h : rtClsK S camel ku (levelOK S) c ms ov strict x = true) :
+    deserK S camel ku c ov strict (ser S camel ms x) = .ok x := by
   cases x with
   | obj kvs =>
-    simp only [rtCls, and_true_iff'] at h
-    have := rt_fields S camel c.fields ms (aggregate S false c.own c.fields ov camel) strict kvs kvs
-      h.1 (fun q hq => hq) h.2
-    simp [deser, ser, dObj, this]
-  | null => simp [rtCls] at h
-  | int i => simp [rtCls] at h
-  | str s => simp [rtCls] at h
-  | arr xs => simp [rtCls] at h
+    simp only [rtClsK, and_true_iff'] at h
+    have := rt_fields S camel c.fields (kuNext ku camel c.desL) ms (aggregate S false c.desL c.fields ov camel)
+      strict kvs kvs h.1.1 (fun q hq => hq) h.2
+    have hex := h.1.2
+    simp only [exFree] at hex
+    simp [deserK, ser, dObjK, this, construct_noExtras _ _ _ hex]
+  | null => simp [rtClsK] at h
+  | int i => simp [rtClsK] at h
+  | str s => simp [rtClsK] at h
+  | arr xs => simp [rtClsK] at h
+
+/-- **Round trip (partial statement)** with `keep_undefined = False` (what `Deserializer(cls)` passes
+    for a class that allows additional properties): no `exFree` hypothesis is left. -/
+theorem mapper_round_trip (S : StrFns) (camel : Bool) (c : Cls) (ms : MDict) (ov : Option MDict)
+    (strict : Bool) (x : J) (h : rtCls S camel (levelOK S) c ms ov strict x = true) :
+    deser S camel c ov strict (ser S camel ms x) = .ok x :=
+  mapper_round_trip_K S camel false c ms ov strict x h
 
 /-- the same for the serializer's own aggregate: `Deserializer(cls, …).deserialize(Serializer(x, …).serialize(…)) == x` -/
 theorem mapper_round_trip_serialize (S : StrFns) (camel : Bool) (c : Cls) (ov : Option MDict)
@@ -297,7 +367,7 @@ theorem absent_field_not_captured (S : StrFns) (camel : Bool) (ms M : MDict) (st
 def C07_statement : Prop :=
   ∀ (S : StrFns) (camel : Bool) (c : Cls) (ov : Option MDict) (strict : Bool) (x : J),
     rtCls S camel (levelDom S) c (aggregate S true c.own c.fields ov camel) ov strict x = true →
-    deser S camel c ov strict (serialize S camel c ov x) = .ok x
+    deserK S camel c.closedAny c ov strict (serialize S camel c ov x) = .ok x
 
 /-! ### flat classes: everything but injectivity, NoDot and NoFallbackCapture is discharged -/
 
@@ -310,9 +380,9 @@ def flatConf : List Fld → List (String × J) → Bool
     | [] => false
     | p :: rest => (p.1 == f.name) && scalarOK f.opt p.2 && flatConf fs rest)
 
-theorem flat_rtFields (S : StrFns) (camel : Bool) (lv : LevelPred) (ms M : MDict) :
+theorem flat_rtFields (S : StrFns) (camel ku : Bool) (lv : LevelPred) (ms M : MDict) :
     ∀ (fs : List Fld) (kvs : List (String × J)), allScalar fs = true → flatConf fs kvs = true →
-      rtFields S camel lv ms M fs kvs = true
+      rtFields S camel ku lv ms M fs kvs = true
   | [], kvs, _, h => by simpa [rtFields, flatConf] using h
   | f :: fs, kvs, hs, h => by
     cases kvs with
@@ -324,7 +394,7 @@ theorem flat_rtFields (S : StrFns) (camel : Bool) (lv : LevelPred) (ms M : MDict
       | nested n o sh own fs' => simp at hs
       | scalar n o =>
         simp only [rtFields, rtFld, and_true_iff']
-        exact ⟨⟨h.1.1, h.1.2⟩, flat_rtFields S camel lv ms M fs rest hs.2 h.2⟩
+        exact ⟨⟨h.1.1, h.1.2⟩, flat_rtFields S camel ku lv ms M fs rest hs.2 h.2⟩
 
 /-- a field's entry is a string key, or `DoNotSerialize` with the field absent -/
 def entryOK (m : MDict) (p : String × J) : Bool := isKeyAt m p.1 || (isDnsAt m p.1 && p.2.isNull)
@@ -355,7 +425,7 @@ theorem syncOK_top (S : StrFns) (own : List Mapper) (fs : List Fld) (ov : Option
     the populated keys are distinct and differ from absent fields' keys, then
     `deserialize(serialize(x)) = x`.  `Sync` is *proved* here, not assumed. -/
 theorem flat_round_trip (S : StrFns) (camel : Bool) (c : Cls) (ov : Option MDict) (strict : Bool)
-    (kvs : List (String × J))
+    (kvs : List (String × J)) (hdes : c.des = none)
     (hflat : allScalar c.fields = true) (hconf : flatConf c.fields kvs = true)
     (hkeys : ∀ p ∈ kvs, entryOK (aggregate S true c.own c.fields ov camel) p = true)
     (hdot : noDotOK S (aggregate S true c.own c.fields ov camel) kvs = true)
@@ -363,9 +433,112 @@ theorem flat_round_trip (S : StrFns) (camel : Bool) (c : Cls) (ov : Option MDict
     (habs : absentKeyOK (aggregate S true c.own c.fields ov camel) kvs = true) :
     deser S camel c ov strict (serialize S camel c ov (.obj kvs)) = .ok (.obj kvs) := by
   apply mapper_round_trip_serialize
-  simp only [rtCls, levelOK, and_true_iff']
-  exact ⟨⟨⟨⟨syncOK_top S c.own c.fields ov camel kvs hkeys, hdot⟩, hinj⟩, habs⟩,
-    flat_rtFields S camel _ _ _ c.fields kvs hflat hconf⟩
+  have hd : c.desL = c.own := by simp [Cls.desL, hdes]
+  simp only [rtCls, rtClsK, levelOK, and_true_iff', hd, kuNext_false, exFree_false]
+  exact ⟨⟨⟨⟨⟨syncOK_top S c.own c.fields ov camel kvs hkeys, hdot⟩, hinj⟩, habs⟩, trivial⟩,
+    flat_rtFields S camel _ _ _ _ c.fields kvs hflat hconf⟩
+
+
+/-! ### nested levels: the serializer's aggregate *is* the specification, and `Sync` holds in a region -/
+
+/-- **`Sem.ser = Spec.specSer` at every nesting depth**: for every class tree (distinct field names per
+    level), every mapper list / override / `camel_case_convert` and every fitting instance, the
+    serialized document is the one the pointwise specification prescribes — nested structures under
+    `own ++ (what the outer list lets through)`.  The dict-of-dicts algorithm, including the "latest
+    mapper already maps to this value" branch on nested `"<field>._mapper"` entries, is a refinement
+    of the composition of mapper lists. -/
+theorem spec_ser_eq_ser (S : StrFns) (camel : Bool) (c : Cls) (ov : Option MDict) (x : J)
+    (hw : wfFields c.fields = true) (hc : conf c.fields x = true) :
+    serialize S camel c ov x = specSer S (effList c.own ov camel) c.fields x :=
+  c07_ser_eq_spec S camel x _ _ c.fields (c07_aggregate_agrees S c.own c.fields ov camel hw) hc
+
+/-- the serializer's resolved mapper agrees with the mapper lists at every depth -/
+theorem ser_aggregate_pointwise_every_level (S : StrFns) (c : Cls) (ov : Option MDict) (camel : Bool)
+    (hw : wfFields c.fields = true) :
+    AgreesFs S (aggregate S true c.own c.fields ov camel) (effList c.own ov camel) c.fields :=
+  c07_aggregate_agrees S c.own c.fields ov camel hw
+
+theorem region_desL (S : StrFns) (c : Cls) (ov : Option MDict) (camel : Bool)
+    (h : regionOK S c ov camel = true) : c.desL = c.own := by
+  simp only [regionOK, and_true_iff'] at h
+  have := h.1.1.1.1.1
+  unfold Cls.desL
+  cases hd : c.des with
+  | none => rfl
+  | some l => rw [hd] at this; simp at this
+
+/-- inside `regionOK` the deserializer's aggregate of the top class is the shape list of its mapper list -/
+theorem deser_aggregate_shape (S : StrFns) (c : Cls) (ov : Option MDict) (camel : Bool)
+    (h : regionOK S c ov camel = true) :
+    aggregate S false c.desL c.fields ov camel = shapeFields S (effList c.own ov camel) c.fields := by
+  rw [region_desL S c ov camel h]
+  simp only [regionOK, and_true_iff'] at h
+  exact c07_foldAdd_base S c.fields _ h.1.1.1.2 h.1.1.2
+
+/-- `_convert_to_camelcase` is idempotent on the driver's ASCII strings (its result has no underscore) -/
+theorem camel_idempotent_ascii (s : String) : asciiFns.camel (asciiFns.camel s) = asciiFns.camel s :=
+  c07_camelAscii_idem s
+
+/-- **`Sync` is a theorem inside the region.**  `regionOK` is a decidable predicate on the class tree,
+    its mapper lists and the `camel_case_convert` flag alone: plain mappers (enum mappers, dicts of
+    string / `DoNotSerialize` values without `"<field>._mapper"` entries) on the top class and on the
+    classes nested directly in it, no own mapper on classes nested deeper, every nested field mapped
+    to a string key under which its re-keyed nested entry is found, and no two re-keyed nested entries
+    colliding in any round.  There the level hypotheses `levelOK` (with `Sync`) follow at *every* depth
+    from the demanded domain.  With `camel_case_convert` the deserializer applies `TO_CAMELCASE` once
+    more at every level; this is harmless because the conversion is idempotent (`hc`, proved for the
+    ASCII functions in `camel_idempotent_ascii`). -/
+theorem sync_in_region (S : StrFns) (c : Cls) (ov : Option MDict) (camel ku strict : Bool) (x : J)
+    (hc : camel = true → ∀ s, S.camel (S.camel s) = S.camel s)
+    (hreg : regionOK S c ov camel = true)
+    (h : rtClsK S camel ku (levelDomE S) c (aggregate S true c.own c.fields ov camel) ov strict x = true) :
+    rtClsK S camel ku (levelOK S) c (aggregate S true c.own c.fields ov camel) ov strict x = true := by
+  have hM := deser_aggregate_shape S c ov camel hreg
+  have hdl := region_desL S c ov camel hreg
+  simp only [regionOK, and_true_iff'] at hreg
+  obtain ⟨⟨⟨⟨⟨_, hw⟩, hplain⟩, _⟩, hnod⟩, hnested⟩ := hreg
+  cases x with
+  | obj kvs =>
+    simp only [rtClsK, and_true_iff'] at h ⊢
+    refine ⟨⟨c07_level_of_lookups S _ _ strict kvs h.1.1
+      (fun p _ => by rw [hdl]; exact (ser_deser_same_field_keys S c.own c.fields ov camel p.1).symm), h.1.2⟩, ?_⟩
+    rw [hM] at h ⊢
+    exact c07_sync_fields S camel hc c.fields c.fields _ _ _ _ kvs (c07_camelRel_top camel c.own ov) hplain hnod
+      (c07_aggregate_agrees S c.own c.fields ov camel hw) (fun g hg => hg) hnested h.2
+  | null => simp [rtClsK] at h
+  | int i => simp [rtClsK] at h
+  | str s => simp [rtClsK] at h
+  | arr xs => simp [rtClsK] at h
+
+/-- **Round trip, unconditional on the region, any depth, `camel_case_convert` on or off.**  For every
+    class tree and mapper lists in `regionOK` and every instance inside the demanded domain at every
+    level (every field resolved to a string key or an absent `DoNotSerialize` field, no dotted key,
+    populated keys distinct and not an absent field's key): `deserialize(serialize(x)) = x`, strict or
+    not.  No `Sync` hypothesis. -/
+theorem mapper_round_trip_region (S : StrFns) (c : Cls) (ov : Option MDict) (camel strict : Bool) (x : J)
+    (hc : camel = true → ∀ s, S.camel (S.camel s) = S.camel s)
+    (hreg : regionOK S c ov camel = true)
+    (h : rtCls S camel (levelDomE S) c (aggregate S true c.own c.fields ov camel) ov strict x = true) :
+    deser S camel c ov strict (serialize S camel c ov x) = .ok x :=
+  mapper_round_trip_serialize S camel c ov strict x (sync_in_region S c ov camel false strict x hc hreg h)
+
+/-- the same for any `keep_undefined` and classes that forbid additional properties: inside the region
+    and the demanded domain, if no serialized key of a level is kept as an undefined attribute
+    (`exFree` at every level, part of `rtClsK`), the round trip holds -/
+theorem mapper_round_trip_region_K (S : StrFns) (c : Cls) (ov : Option MDict) (camel ku strict : Bool) (x : J)
+    (hc : camel = true → ∀ s, S.camel (S.camel s) = S.camel s)
+    (hreg : regionOK S c ov camel = true)
+    (h : rtClsK S camel ku (levelDomE S) c (aggregate S true c.own c.fields ov camel) ov strict x = true) :
+    deserK S camel ku c ov strict (serialize S camel c ov x) = .ok x :=
+  mapper_round_trip_K S camel ku c _ ov strict x (sync_in_region S c ov camel ku strict x hc hreg h)
+
+/-- the same for the driver's string functions: no hypothesis on the strings left -/
+theorem mapper_round_trip_region_ascii (c : Cls) (ov : Option MDict) (camel strict : Bool) (x : J)
+    (hreg : regionOK asciiFns c ov camel = true)
+    (h : rtCls asciiFns camel (levelDomE asciiFns) c (aggregate asciiFns true c.own c.fields ov camel)
+      ov strict x = true) :
+    deser asciiFns camel c ov strict (serialize asciiFns camel c ov x) = .ok x :=
+  mapper_round_trip_region asciiFns c ov camel strict x (fun _ => camel_idempotent_ascii) hreg h
 
 /-! ### wrapper validation -/
 
@@ -395,7 +568,7 @@ theorem good_mapper_keys_accepted (S : StrFns) (names keys : List String)
 /-- string functions without any string computation: enough for the counterexamples -/
 def idFns : StrFns := ⟨id, id, fun s => [s]⟩
 
-def swCls : Cls := ⟨[.dict [(.fld "a", .key "b"), (.fld "b", .key "a")]], [.scalar "a" true, .scalar "b" false]⟩
+def swCls : Cls := { own := [.dict [(.fld "a", .key "b"), (.fld "b", .key "a")]], fields := [.scalar "a" true, .scalar "b" false] }
 def swInst : J := .obj [("a", .null), ("b", .int 2)]
 
 def isOkEq (r : DR J) (f : J → Bool) : Bool := match r with | .ok y => f y | .error _ => false
@@ -416,7 +589,7 @@ theorem fallback_capture_fixed :
         (fun y => jEq y swInst) = true := by
   decide
 
-def dnCls : Cls := ⟨[.dict [(.fld "a", .dns)]], [.scalar "a" true, .scalar "b" false]⟩
+def dnCls : Cls := { own := [.dict [(.fld "a", .dns)]], fields := [.scalar "a" true, .scalar "b" false] }
 
 /-- former finding `dns-blocks-deserialize` (fixed by /repo e74486a): `a` mapped to `DoNotSerialize`,
     optional and absent — the class can be deserialized and the instance round-trips; it satisfies the
@@ -441,8 +614,8 @@ def upFns : StrFns :=
       else if s = "b" then "B" else s, fun s => [s]⟩
 
 def gFlds : List Fld := [.scalar "a" false, .scalar "b" false]
-def midFlds : List Fld := [.nested "g" false .one [.dict [(.fld "a", .key "z")]] gFlds]
-def topCls : Cls := ⟨[.lower], [.nested "m" false .one [] midFlds]⟩
+def midFlds : List Fld := [.nested "g" false .one { ser := [.dict [(.fld "a", .key "z")]] } gFlds]
+def topCls : Cls := { own := [.lower], fields := [.nested "m" false .one { ser := [] } midFlds] }
 def topInst : J := .obj [("m", .obj [("g", .obj [("a", .int 1), ("b", .int 2)])])]
 
 /-- finding `nested-resync`: `Top(TO_LOWERCASE) → Mid → G({'a':'z'})`: the serializer writes `G.a`
@@ -460,14 +633,16 @@ theorem C07_statement_false : ¬ C07_statement := by
   have h1 := nested_resync_counterexample
   have h2 := h upFns false topCls none false topInst h1.1
   have h3 := h1.2
-  rw [h2] at h3
+  have e : deserK upFns false topCls.closedAny topCls none false (serialize upFns false topCls none topInst)
+      = deser upFns false topCls none false (serialize upFns false topCls none topInst) := rfl
+  rw [← e, h2] at h3
   revert h3
   decide
 
 def rtCls2 : Cls :=
-  ⟨[.dict [(.fld "a", .key "k"), (.nest "n", .sub [(.fld "p", .key "q")])], .lower],
-   [.scalar "a" false, .scalar "o" true,
-    .nested "n" false .many [.dict [(.fld "p", .key "r")]] [.scalar "p" false, .scalar "s" true]]⟩
+  { own := [.dict [(.fld "a", .key "k"), (.nest "n", .sub [(.fld "p", .key "q")])], .lower],
+    fields := [.scalar "a" false, .scalar "o" true,
+      .nested "n" false .many { ser := [.dict [(.fld "p", .key "r")]] } [.scalar "p" false, .scalar "s" true]] }
 def rtInst2 : J :=
   .obj [("a", .int 1), ("o", .null),
         ("n", .arr [.obj [("p", .int 3), ("s", .null)], .obj [("p", .int 4), ("s", .int 5)]])]
@@ -480,6 +655,122 @@ theorem round_trip_example :
         none false rtInst2 = true
     ∧ imageKeys upFns false (aggregate upFns true rtCls2.own rtCls2.fields none false)
         [("a", .int 1), ("o", .null), ("n", .arr [])] = ["k", "n"] := by
+  decide
+
+def rgG : List Fld := [.scalar "a" false, .scalar "b" true]
+def rgMid : List Fld := [.nested "g" false .one { ser := [] } rgG, .scalar "z" false]
+def rgTop : Cls :=
+  { own := [.dict [(.fld "m", .key "mm")], .lower],
+    fields := [.nested "m" false .many { ser := [.dict [(.fld "g", .key "gg")]] } rgMid, .scalar "a" true] }
+def rgInst : J :=
+  .obj [("m", .arr [.obj [("g", .obj [("a", .int 1), ("b", .null)]), ("z", .int 3)],
+                    .obj [("g", .obj [("a", .int 2), ("b", .int 5)]), ("z", .int 4)]]),
+        ("a", .null)]
+
+/-- non-vacuity of `mapper_round_trip_region`: a three-level tree (dict + TO_LOWERCASE on the top class,
+    a dict on the class nested in a list, a grand-nested class) is inside the region, its instance
+    inside the demanded domain, the grand-nested key is the upper-cased one; and the class tree of
+    the open finding `nested-resync` (own rename two levels down) is outside the region -/
+theorem region_example :
+    regionOK upFns rgTop none false = true
+    ∧ rtCls upFns false (levelDomE upFns) rgTop (aggregate upFns true rgTop.own rgTop.fields none false)
+        none false rgInst = true
+    ∧ isOkEq (.ok (serialize upFns false rgTop none rgInst))
+        (fun d => match d with
+          | .obj [("mm", .arr [.obj [("gg", .obj [("a", .int 1)]), ("Z", .int 3)], _])] => true
+          | _ => false) = true
+    ∧ regionOK upFns topCls none false = false
+    ∧ regionOK upFns rgTop none true = true
+    ∧ rtCls upFns true (levelDomE upFns) rgTop (aggregate upFns true rgTop.own rgTop.fields none true)
+        none true rgInst = true := by
+  decide
+
+/-! ### undefined keys: classes that forbid additional properties -/
+
+def kuN : List Fld := [.scalar "q" false]
+/-- `class N: q: int; _serialization_mapper = {'q': 'k'}`, `class O: n: N; z: int; _additional_properties = False` -/
+def kuO : Cls :=
+  { own := [], closedOwn := true, closedAny := true,
+    fields := [.nested "n" false .one { ser := [.dict [(.fld "q", .key "k")]] } kuN, .scalar "z" false] }
+def kuInst : J := .obj [("n", .obj [("q", .int 1)]), ("z", .int 2)]
+
+/-- finding `keep-undefined-leak`: `Deserializer(O).deserialize` turns `keep_undefined` on because `O` is
+    closed; `O` itself drops undefined keys but hands the flag to the open nested class `N`, which keeps
+    its renamed key `k` as an extra attribute: the result is `O(n=N(q=1, k=1), z=2)`.  The instance is
+    inside the demanded domain and satisfies `Sync` at every level; only `exFree` fails. -/
+theorem keep_undefined_leak_counterexample :
+    rtCls idFns false (levelDom idFns) kuO (aggregate idFns true kuO.own kuO.fields none false) none false kuInst = true
+    ∧ rtCls idFns false (levelOK idFns) kuO (aggregate idFns true kuO.own kuO.fields none false) none false kuInst = true
+    ∧ rtClsK idFns false kuO.closedAny (levelOK idFns) kuO (aggregate idFns true kuO.own kuO.fields none false)
+        none false kuInst = false
+    ∧ isOkEq (deserK idFns false kuO.closedAny kuO none false (serialize idFns false kuO none kuInst))
+        (fun y => match y with
+          | .obj [("n", .obj [("q", .int 1), ("k", .int 1)]), ("z", .int 2)] => true
+          | _ => false) = true := by
+  decide
+
+/-- `class P: q: int; _additional_properties = False; _serialization_mapper = {'q': 'k'}`, `class C(P): z: int`:
+    closed by inheritance only -/
+def kuC : Cls :=
+  { own := [.dict [(.fld "q", .key "k")]], closedOwn := false, closedAny := true,
+    fields := [.scalar "q" false, .scalar "z" false] }
+
+/-- finding `inherited-closed-class-rejects-mapped-key`: the subclass's own `__dict__` does not forbid
+    additional properties, so the renamed key `k` is passed to the constructor as an undefined key, and
+    the constructor (which honours the inherited flag) refuses it. -/
+theorem inherited_closed_counterexample :
+    rtCls idFns false (levelOK idFns) kuC (aggregate idFns true kuC.own kuC.fields none false) none false
+        (.obj [("q", .int 1), ("z", .int 2)]) = true
+    ∧ isErr (deserK idFns false kuC.closedAny kuC none false
+        (serialize idFns false kuC none (.obj [("q", .int 1), ("z", .int 2)]))) = true := by
+  decide
+
+/-- a tree in which *every* class forbids additional properties in its own body round-trips whatever
+    `keep_undefined` is: `exFree` holds at every level (non-vacuity of `mapper_round_trip_K` with
+    `keep_undefined` on) -/
+def kuAll : Cls :=
+  { own := [.dict [(.fld "z", .key "zz")]], closedOwn := true, closedAny := true,
+    fields := [.nested "n" false .one { ser := [.dict [(.fld "q", .key "k")]], closedOwn := true, closedAny := true } kuN,
+               .scalar "z" false] }
+
+theorem closed_round_trip_example :
+    rtClsK idFns false true (levelOK idFns) kuAll (aggregate idFns true kuAll.own kuAll.fields none false)
+        none false kuInst = true
+    ∧ regionOK idFns kuAll none false = true := by
+  decide
+
+def cacheG : List Fld := [.scalar "a" false]
+def cacheMid : List Fld := [.nested "g" false .one { ser := [.dict [(.fld "a", .key "z")]], cid := "G" } cacheG]
+def cacheTopFs : List Fld := [.nested "m" false .one { ser := [.lower], cid := "Mid" } cacheMid]
+
+/-- non-vacuity: serializing `Top -> Mid -> G` from an empty cache files `G`, `Mid` and `Top` (in this
+    order); a later call on `Mid` alone is answered from the cache -/
+theorem cache_nested_example :
+    ((cAggregate upFns [] "Top" "" [] cacheTopFs none false).2.map (·.1))
+        = [("G", "", false), ("Mid", "", false), ("Top", "", false)]
+    ∧ ((cAggregate upFns (cAggregate upFns [] "Top" "" [] cacheTopFs none false).2
+          "Mid" "" [.lower] cacheMid none false).2.length) = 3 := by
+  decide
+
+def adG : List Fld := [.scalar "a" false, .scalar "b" true]
+def adMid : List Fld := [.nested "g" false .one { ser := [.dict [(.fld "a", .key "z")]] } adG, .scalar "y" false]
+def adTop : Cls :=
+  { own := [.dict [(.fld "m", .key "mm")]],
+    fields := [.nested "m" false .one { ser := [.dict [(.fld "g", .key "gg")]] } adMid] }
+def adInst : J := .obj [("m", .obj [("g", .obj [("a", .int 1), ("b", .null)]), ("y", .int 3)])]
+
+/-- non-vacuity of the second alternative of the region: a tree of dict mappers only may rename at *every*
+    depth (the grand-nested class `G` renames `a` to `z`, the very shape of finding `nested-resync` but
+    without an enum mapper above it) — inside the region, inside the domain, and the keys are the renamed
+    ones at every level -/
+theorem region_all_dict_example :
+    regionOK idFns adTop none false = true
+    ∧ rtCls idFns false (levelDomE idFns) adTop (aggregate idFns true adTop.own adTop.fields none false)
+        none false adInst = true
+    ∧ isOkEq (.ok (serialize idFns false adTop none adInst))
+        (fun d => match d with
+          | .obj [("mm", .obj [("gg", .obj [("z", .int 1)]), ("y", .int 3)])] => true
+          | _ => false) = true := by
   decide
 
 end Typedpy.C07
